@@ -217,12 +217,12 @@ def run(ctx: Ctx) -> None:
             units.append((hname, first, {}, baseline))
             locs = d["locations"]
             total_points += len(locs)
-            seen = set()
+            seen = {}
+            cap = 1 if quick else 3   # visits of one line by one thread that get a preemption (loops revisit lines)
             for k, (th, desc) in enumerate(locs):
-                if quick:
-                    if (th, desc) in seen:
-                        continue
-                    seen.add((th, desc))
+                seen[(th, desc)] = seen.get((th, desc), 0) + 1
+                if seen[(th, desc)] > cap:
+                    continue
                 for target in range(n):
                     if target != th:
                         units.append((hname, first, {k: target}, baseline))
@@ -264,7 +264,7 @@ def run(ctx: Ctx) -> None:
             "distinct_nontrivial": res["nontrivial"],
             "rule": "stateless exploration of schedules of 2-thread first-use harnesses from a cold forked process; scheduling points = line "
                     "events in the lazy-loading / registry / dispatch-cache functions + every lock operation; preemption bound 0 (both "
-                    "start orders) and 1 (" + ("first visit of every distinct line per thread" if quick else "every point; bound 2 at shared-state lines") +
+                    "start orders) and 1 (" + ("first visit of every distinct line per thread" if quick else "first three visits of every distinct line per thread; bound 2 at shared-state lines") +
                     "); every execution runs to completion. non-trivial = executions in which a preemption was actually taken (the other "
                     "thread ran between two points of the first).",
             "harnesses": plan_info,
